@@ -79,7 +79,7 @@ type world struct {
 	conns    map[string]*fconn
 	nextPort int
 	ev       *evlog
-	caseDone chan struct{} // closed when the case is over: releases everything that is still parked
+	caseDone chan struct{}  // closed when the case is over: releases everything that is still parked
 	silent   [2]atomic.Bool // datagrams written by side i are dropped
 	// writes attempted on A's sockets after the marker was set (later calls must have no effect)
 	lateMark   atomic.Bool
